@@ -45,6 +45,8 @@ func init() {
 			{Name: "literals", Run: runLiterals},
 			{Name: "lexerrors", Run: runLexErrors},
 			{Name: "regexmode", Run: runRegexMode},
+			{Name: "deep", Run: runDeep},
+			{Name: "deepchild", Run: runDeepChild},
 			{Name: "earlyerrors", Run: runEarlyErrors},
 		},
 		Assumptions: []string{
@@ -75,6 +77,9 @@ func init() {
 		return m.Expected == "*parser.ErrorList" && !strings.Contains(m.Observed, "ErrorList")
 	})
 	engine.RegisterSignature("c04-ignore-regexp-errors-skips-validation", sigIgnoreRegExpErrors)
+	engine.RegisterSignature("c04-new-chain-unbounded", func(m *engine.Mismatch) bool {
+		return strings.HasSuffix(m.Key, "#bound") && (m.Aux["production"] == "new" || m.Aux["production"] == "new-args") && strings.HasPrefix(m.Observed, "accept")
+	})
 	engine.RegisterSignature("c04-idx-empty-list", sigIdxEmptyList)
 	engine.RegisterSignature("c04-walk-typed-nil", sigWalkTypedNil)
 	engine.RegisterSignature("c04-silent-bad-node", sigSilentBadNode)
